@@ -28,7 +28,7 @@ ENGINES["range"] = dict(
     branches=["rsetup.ok", "rsetup.err", "rreq.new", "rreq.known", "rreq.exhausted", "rreq.maclen-other", "rrestart.ok", "rreq.key-rewritten-by-affinity", "range.time-passes"],
 )
 ENGINES["prefix"] = dict(
-    drv="prefix", starts=("psetup",),
+    drv="prefix", starts=("psetup",), diverge_owner=lambda line, pid, msg: pid != "C19",   # C19 only reads the wire round trip off this engine
     trivial=r"^(psetup .* ok$)",
     branches=["psetup.ok", "psetup.err", "pmsg.reply", "pmsg.drop", "pmsg.hintless", "pmsg.hint-len0", "pmsg.hint-len>128",
               "pmsg.multi-hint", "pmsg.multi-iapd", "pmsg.no-client-id", "pmsg.noprefixavail", "pmsg.new-lease", "pmsg.known-lease", "prefix.time-passes"],
@@ -67,7 +67,8 @@ ENGINES["filec"] = dict(
 # sys: the driver says which part of the reply differs from the composed model's (DIVERGE dom[sent,header,addr,opts,dest,relay]);
 # a broken correspondence is charged to the properties whose SYS_ theorem speaks about that part
 SYS_PARTS = {"C11": {"sent", "header"}, "C12": {"sent", "header", "relay", "dest"}, "C15": {"dest"}, "C13": {"sent", "opts", "addr"},
-             "C14": {"sent", "opts", "addr"}, "C10": {"addr", "opts"}, "C17": {"opts"}, "C01": set(), "C19": set()}
+             "C14": {"sent", "opts", "addr"}, "C10": {"addr", "opts"}, "C17": {"opts"}, "C01": set(), "C19": set(),
+             "C08": {"pd"}, "C09": {"pd"}}
 
 
 def sys_owner(line, pid, msg):
@@ -75,7 +76,7 @@ def sys_owner(line, pid, msg):
     m = _re.search(r"dom\[([^\]]*)\]", msg)
     if not m:
         return True
-    return bool(set(m.group(1).split(",")) & SYS_PARTS.get(pid, {"sent", "header", "addr", "opts", "dest", "relay"}))
+    return bool(set(m.group(1).split(",")) & SYS_PARTS.get(pid, {"sent", "header", "addr", "opts", "dest", "relay", "pd"}))
 
 
 ENGINES["sys"] = dict(
@@ -83,12 +84,19 @@ ENGINES["sys"] = dict(
     branches=["sys.fresh-process", "sys.file-ok", "sys.range-ok", "sys.range-new", "sys.range-known", "sys.range-exhausted", "sys4.request", "sys4.not-bootrequest", "sys4.other-type", "sys4.unparsable", "sys4.drop", "sys4.dropped-by-plugin",
               "sys4.l2", "sys4.routed", "sys4.pinned", "sys4.unpinned", "sys4.l2-no-interface", "sys4.address-assigned", "sys4.options-added", "sys4.chain-len-4",
               "sys6.direct", "sys6.relayed", "sys6.supported", "sys6.unsupported", "sys6.drop", "sys6.dropped-after-stub", "sys6.pinned", "sys6.unpinned",
-              "sys6.options-added", "sys6.address-assigned", "sys6.chain-len-4"],
+              "sys6.options-added", "sys6.address-assigned", "sys6.chain-len-4",
+              "sys.prefix-ok", "sys.prefix-rejected", "sys.pd-request", "sys.pd-no-iapd", "sys.pd-noprefixavail", "sys.pd-new-lease", "sys.pd-known-client", "sys.pd-multi-iapd",
+              "sys.pd-not-reached", "sys.pd-reply-discarded"],
 )
 
+def serve_owner(line, pid, msg):
+    # `svstart` lines are about start-up and the empty chain (C13; nothing answering is also C01's business); the bursts are not C13's
+    return (pid in ("C13", "C01")) if line.startswith("svstart") else pid != "C13"
+
+
 ENGINES["serve"] = dict(
-    drv="serve", starts=("sv6", "sv4"), trivial=r"$^", noshrink=True,
-    branches=["serve.sv6.q.procs1", "serve.sv6.l.procs1", "serve.sv6.q.procsn", "serve.sv6.l.procsn", "serve.sv4.q.procs1", "serve.sv4.l.procs1", "serve.sv4.q.procsn", "serve.sv4.l.procsn", "serve.answered"],
+    drv="serve", diverge_owner=serve_owner, starts=("sv6", "sv4", "svstart"), trivial=r"$^", noshrink=True,
+    branches=["serve.start.empty", "serve.start.other", "serve.start.dns", "serve.sv6.q.procs1", "serve.sv6.l.procs1", "serve.sv6.q.procsn", "serve.sv6.l.procsn", "serve.sv4.q.procs1", "serve.sv4.l.procs1", "serve.sv4.q.procsn", "serve.sv4.l.procsn", "serve.answered"],
 )
 
 ENGINES["chain"] = dict(drv="chain", starts=("ccfg",), trivial=r"=> drop$", branches=["chain.cfg4.ok", "chain.cfg6.ok", "chain.drop", "chain.send"])
@@ -137,7 +145,7 @@ PROPS = {
                      "DHCPv6 plugins that append (nbp) are judged on responses that do not already carry their option and on request lists without repeated codes (C17.dom6)"],
     ),
     "C19": dict(
-        engines=[("plug", 4000, 60000), ("chain", 1500, 30000), ("sys", 1500, 30000)],
+        engines=[("plug", 4000, 60000), ("chain", 1500, 30000), ("sys", 1500, 30000), ("prefix", 2500, 40000)],
         theorems=["C19_setup_wireOK", "C19_setup_wireOK4", "C19_staticroute_rejects_non_ipv4", "C19_routes_roundtrip", "C19_labels_roundtrip", "C19_ips_roundtrip", "C19_bootparams_roundtrip",
                   "C19_oversize6_refuted", "C13_nil_stop_builtin", "C13_nil_stop_builtin6"],
         modules=["CoreDhcp.Props.C19", "CoreDhcp.Props.Builtin"],
@@ -155,7 +163,7 @@ PROPS = {
                      "plugin names reach the loader lower-cased by viper"],
     ),
     "C01": dict(
-        engines=[("chain", 2500, 60000), ("dispatch4", 3000, 60000), ("dispatch6", 3000, 60000), ("prefix", 1500, 30000), ("filec", 40, 250), ("sys", 1500, 30000), ("serve", 6, 60),
+        engines=[("chain", 2500, 60000), ("dispatch4", 3000, 60000), ("dispatch6", 3000, 60000), ("prefix", 1500, 30000), ("filec", 40, 250), ("sys", 1500, 30000), ("serve", 11, 65),
                  ("prefixc", 600, 6000), ("rangec", 300, 3000), ("allocc", 600, 6000)],
         theorems=["C01_dispatch4", "C01_dispatch6", "C01_range_never_panics", "C01_alloc6_never_bug", "C01_alloc4_never_panics", "C01_chain_bounded"],
         modules=["CoreDhcp.Props.C01"],
@@ -186,23 +194,24 @@ PROPS = {
         assumptions=["a refresh is one atomic table swap (recLock held by defer in loadFromFile, file parsed before the lock; readers hold RLock): fact F11, and the filec engine"],
     ),
     "C08": dict(
-        engines=[("prefix", 2500, 40000), ("prefixc", 800, 10000)],
-        theorems=["C08_holds"],
-        modules=["CoreDhcp.Props.C08"],
+        engines=[("prefix", 2500, 40000), ("prefixc", 800, 10000), ("sys", 1500, 30000)],
+        theorems=["C08_holds", "SYS_pd_delivered6", "SYS_pd_roundtrip", "SYS_pd_answers_each", "SYS_frame6"],
+        modules=["CoreDhcp.Props.C08", "CoreDhcp.Props.System"],
         facts=["F1", "F6"],
         trusted_base=[TB_BITSET, TB_CLOCK, "insomniacslk/dhcp option parsing (IA_PD / IAPrefix): the model starts from the hints as the library delivers them"],
-        assumptions=["each message is one atomic step (handler mutex held for the whole call by defer: fact F1)", "the clock does not run backwards between messages"],
+        assumptions=["each message is one atomic step (handler mutex held for the whole call by defer: fact F1)", "the clock does not run backwards between messages",
+                     "SYS_pd_delivered6 / SYS_pd_answers_each: `prefix` once in the chain and only plugins that never end the chain before it (dns, searchdomains, sleep, file) - with nbp or a discarding server_id before it the IA_PDs are not answered at all, as the example next to the theorem shows"],
     ),
     "C09": dict(
-        engines=[("prefix", 2500, 40000), ("prefixc", 800, 10000)],
-        theorems=["C09_holds", "C09_frame"],
-        modules=["CoreDhcp.Props.C09"],
+        engines=[("prefix", 2500, 40000), ("prefixc", 800, 10000), ("sys", 1500, 30000)],
+        theorems=["C09_holds", "C09_frame", "SYS_pd_delivered6"],
+        modules=["CoreDhcp.Props.C09", "CoreDhcp.Props.System"],
         facts=["F1"],
         trusted_base=[TB_BITSET, TB_CLOCK, "insomniacslk/dhcp option parsing (IA_PD / IAPrefix)"],
         assumptions=["'no prefix hint at all' = no IAPrefix option or only IAPrefix options of prefix-length 0; a length-only hint (::/n, n>0) is a hint", "leases are never expired or freed by the plugin (as in the code)"],
     ),
     "C11": dict(
-        engines=[("dispatch4", 6000, 100000), ("sys", 1500, 30000), ("serve", 6, 60)],
+        engines=[("dispatch4", 6000, 100000), ("sys", 1500, 30000), ("serve", 11, 65)],
         theorems=["C11_holds", "C11_never_answers_non_requests", "SYS_C11", "SYS_frame4"],
         modules=["CoreDhcp.Props.C11", "CoreDhcp.Props.System"],
         trusted_base=[TB_CODEC, TB_HOOK],
@@ -210,14 +219,14 @@ PROPS = {
                      "'every byte string' is 'every parse result, or parse failure': the byte parser is the library's"],
     ),
     "C12": dict(
-        engines=[("dispatch6", 6000, 100000), ("sys", 1500, 30000), ("serve", 6, 60)],
+        engines=[("dispatch6", 6000, 100000), ("sys", 1500, 30000), ("serve", 11, 65)],
         theorems=["C12_holds", "C12_mirror", "SYS_C12"],
         modules=["CoreDhcp.Props.C12", "CoreDhcp.Props.System"],
         trusted_base=[TB_CODEC, TB_HOOK],
-        assumptions=["C12_holds: handlers return DHCPv6 messages (not relay messages) and keep type, transaction id, client id and rapid commit (Handler6.Preserving). SYS_C12 has no such hypothesis: every chain of built-in option plugins, server_id and file (composed model, tied by the sys engine); prefix is not an element of the composed model"],
+        assumptions=["C12_holds: handlers return DHCPv6 messages (not relay messages) and keep type, transaction id, client id and rapid commit (Handler6.Preserving). SYS_C12 has no such hypothesis: every chain of built-in option plugins, server_id, file and prefix (composed model, tied by the sys engine)"],
     ),
     "C13": dict(
-        engines=[("dispatch4", 4000, 60000), ("dispatch6", 4000, 60000), ("plugins", 3000, 50000), ("sys", 1500, 30000)],
+        engines=[("dispatch4", 4000, 60000), ("dispatch6", 4000, 60000), ("plugins", 3000, 50000), ("sys", 1500, 30000), ("serve", 11, 65)],
         theorems=["C13_order", "C13_stop", "C13_sends_last4", "C13_sends_last6", "C13_load_exact", "C13_load_aborts", "C13_load_succeeds", "SYS_file_stops4"],
         modules=["CoreDhcp.Props.C13", "CoreDhcp.Props.System"],
         facts=["F3", "F7", "F9"],
